@@ -21,9 +21,24 @@ Scope
     and w zero with probability ~1/4, incidence matrices passed as dense ndarray, scipy csr_array (what fit() builds) and
     the coo_array built by hypergraphx.linalg.hye_list_to_binary_incidence (what the sampler passes), including
     incidence matrices with a single column.
+(K) node counts far beyond the brute-force range, N in {12, 24, 30, 40, 64, 150, 300, 640, 1000, 1030, 1100, 2000, 5000}: log_kappa
+    (one array call over every size 2..N for N <= 640, else the boundary sizes, the middle of the range and a grid of ~120
+    sizes; scalar calls for 2, 3, N/4, N/2, N/2+1, 3N/4, N-1, N) against log(C(d,2) C(N-2,d-2)) computed with EXACT big
+    integers (math.comb, math.log of an int), relative tolerance 1e-9, result must be finite.  On the same N, for a model
+    with equal rows of u (u_i^T w u_j = 1.125 for every pair, so every sum over all hyperedges is a count times a constant)
+    the summands of C, dimension_sequence(expected=True), expected_degree per node and averaged (d = "all" / an array / one
+    middle size) against the exact rational values C(N-2,d-2)/kappa, C(N,d) C(d,2) g/kappa, sum_d C(N-1,d-1) C(d,2) g/kappa.
 (B) fit(): 7 small hypergraphs (4-6 nodes; weighted and unweighted; integer, shifted-integer and string labels; an
     isolated node; sizes up to 5) x seeds (3 quick / 10 thorough) x K in {2,3} x assortative in {True,False} x prior
-    rates {0.0, 1.0} x max_hye_size in {None, largest size of the data, N}:
+    rates {0.0, 1.0} x max_hye_size in {None, largest size of the data, N};
+    plus 3 hypergraphs with NON-INTEGER weights (0.5, 0.7, 1.5, 2.2, ...; one with all weights below 1; one with string
+    labels and an isolated node; 5-6 nodes, sizes up to 5) x seeds (2 quick / 10 thorough) x K x assortative: u supplied
+    with prior rate 0.0 (max_hye_size = data / N; dense and sparse u), 1.0 and an array of rates, and the other modes;
+    plus prior rates given as ARRAYS, as the constructor allows: w_prior a symmetric strictly positive (K, K) ndarray
+    (u supplied -> ascent clause on LL - sum_kq rate_kq (C w)_kq and all invariants, assortative and not; nothing supplied),
+    u_prior a strictly positive (N, K) ndarray (w supplied / nothing supplied), on all 10 hypergraphs.  For an array of
+    rates "supplied parameter unchanged" means: the model's attribute still holds equal values and the caller's array is
+    untouched:
       * u supplied, w inferred, n_iter = 1..8 with the same seed (fresh model each time).  Clauses: supplied parameters
         (u, K, assortative, priors, max_hye_size when given) are bit-identical afterwards and the caller's array is
         untouched; u, w finite and >= -1e-12; w symmetric up to 1e-9 relative, exactly diagonal when assortative; the
@@ -39,7 +54,8 @@ Scope
         statement for these).
     That fits with equal seed are prefixes of each other is not needed for the clause (the statement speaks about
     fit(n_iter=n) as a function of n) but is verified anyway: same seed and n_iter give bit-identical w, and the k-th
-    value returned by the (private, only observed) _w_update of an 8-iteration run divided by C equals fit(n_iter=k).
+    value returned by the (private, only observed) _w_update of an 8-iteration run divided by C equals fit(n_iter=k)
+    (integer-weight / scalar-rate configurations only).
 
 (R) ONE model object used for several hypergraphs (the statement quantifies over every incidence matrix / hypergraph passed,
     not over "the first one a model object sees"), seeded random, numeric, tolerance as in (N):
@@ -68,6 +84,9 @@ through its public methods (plus the two private constants and _linear_ops named
 Known limits
 ------------
 * Shapes of (S) are bounded; floating-point evaluation of the closed forms is only sampled (N).
+* (K) uses K = 1 and equal rows of u (only then do the sums over all C(N,d) hyperedges have an exact closed form); sizes are
+  passed as Python ints or int64 arrays only.  Arrays of prior rates are strictly positive (a zero rate inside an array
+  makes the library's initial draw infinite; the statement does not cover that).
 * Rows of u are matched to nodes through Hypergraph.get_mapping() (public), as fit() does.
 * (R) samples call sequences of length <= 16 on at most two live objects; state that only goes stale after longer
   histories, after the caller mutates / reassigns u or w by hand, or across processes is not exercised.  The ascent clause
@@ -618,28 +637,104 @@ def _run_numeric(ctx, desc):
                             N, K, D, dict(desc, carrier="numeric"))
 
 
+LARGE_N = (12, 24, 30, 40, 64, 150, 300, 640, 1000, 1030, 1100, 2000, 5000)
+
+
+def _large_sizes(N):
+    """Every size for N <= 640; beyond that the boundary sizes, the middle of the range and a regular grid of ~120 sizes."""
+    if N <= 640:
+        return list(range(2, N + 1))
+    ds = {2, 3, 4, 5, N // 8, N // 4, N // 3, N // 2 - 1, N // 2, N // 2 + 1, (2 * N) // 3, (3 * N) // 4, N - 2, N - 1, N}
+    ds.update(range(2, N + 1, max(1, N // 120)))
+    return sorted(ds)
+
+
 def _run_large_kappa(ctx):
-    """The normalisation for node counts beyond the brute-force range: log kappa(d) against the closed form of its counting
-    definition, C(d,2) * C(N-2,d-2), computed with exact integers (the closed form itself is validated by enumeration for N <= 6)."""
+    """The normalisation (and the closed forms built on it) for node counts beyond the brute-force range.  Oracle: EXACT
+    integer / rational arithmetic (math.comb, math.log of arbitrarily large ints, fractions.Fraction).
+      * log kappa(d) against the closed form of its counting definition, C(d,2) * C(N-2,d-2) (the closed form itself is
+        validated by enumeration for N <= 6), for every N of LARGE_N and the sizes of _large_sizes(N): one array call, and
+        scalar calls for a spread of sizes;
+      * on a model whose rows of u are all equal (u_ik = 1.5, K = 1, w = 0.5, so u_i^T w u_j = g = 1.125 for every pair and every
+        hyperedge of size d has lambda = C(d,2) g) the sums over ALL hyperedges have exact closed forms by counting:
+        C summand(d) = C(N-2,d-2)/kappa(d); expected number of hyperedges of size d = C(N,d) C(d,2) g / kappa(d); expected
+        degree of a node = sum_d C(N-1,d-1) C(d,2) g / kappa(d); average degree = the same (all nodes alike)."""
+    import functools
     import math
+    from fractions import Fraction
     np, sp, sparse, Hypergraph, HyMMSBM, lin, to_coo = _imports()
     fn = "HyMMSBM.log_kappa"
-    for N in (12, 24, 30, 40, 64):
+    comb = functools.lru_cache(maxsize=None)(math.comb)
+    uval, wval = 1.5, 0.5
+    g = Fraction(9, 8)        # 1.5 * 0.5 * 1.5, exact in binary floating point
+
+    def close(a, b):
+        return math.isfinite(a) and abs(a - b) <= TOL * max(1.0, abs(b))
+
+    for N in LARGE_N:
         inp = dict(N=N, K=1, part="kappa for large N")
+        rp = dict(part="K", N=N)
+        sizes = _large_sizes(N)
+        pick = sorted({2, 3, N // 4, N // 2, N // 2 + 1, (3 * N) // 4, N - 1, N} & set(sizes))
         try:
-            m = HyMMSBM(u=np.ones((N, 1)), w=np.ones((1, 1)), max_hye_size=N)
-            ds = np.arange(2, N + 1)
-            arr = np.asarray(m.log_kappa(ds), dtype=float)
-            scal = [float(m.log_kappa(int(d))) for d in (2, N // 2, N)]
+            m = HyMMSBM(u=np.full((N, 1), uval), w=np.full((1, 1), wval), max_hye_size=N)
+            arr = np.asarray(m.log_kappa(np.array(sizes)), dtype=float)
+            scal = [float(m.log_kappa(int(d))) for d in pick]
         except Exception as e:      # noqa: BLE001
-            ctx.check(False, fn, RAISES, dict(inp, error=_exc(e)), key=_raise_key(fn, e), replay=dict(part="K", N=N))
+            ctx.check(False, fn, RAISES, dict(inp, error=_exc(e)), key=_raise_key(fn, e), replay=rp)
             continue
-        exp = [math.log(math.comb(d, 2) * math.comb(N - 2, d - 2)) for d in range(2, N + 1)]
-        bad = [int(d) for d, a, b in zip(range(2, N + 1), arr, exp) if not (math.isfinite(a) and abs(a - b) <= 1e-9 * max(1.0, abs(b)))]
-        bad += [int(d) for d, a in zip((2, N // 2, N), scal) if not (math.isfinite(a) and abs(a - exp[d - 2]) <= 1e-9 * max(1.0, abs(exp[d - 2])))]
+        kap = {d: comb(d, 2) * comb(N - 2, d - 2) for d in sizes}
+        exp = {d: math.log(kap[d]) for d in sizes}
+        bad = []
+        if arr.shape != (len(sizes),):
+            bad.append(("shape", list(arr.shape)))
+        else:
+            bad += [int(d) for d, a in zip(sizes, arr) if not close(float(a), exp[d])]
+        bad += [int(d) for d, a in zip(pick, scal) if not close(a, exp[d])]
         ctx.check(not bad, fn, "kappa equals its counting definition (pairs in a hyperedge x hyperedges containing a fixed pair)", inp,
-                  expected="log(C(d,2) C(N-2,d-2))", observed=dict(sizes_off=bad[:8]), replay=dict(part="K", N=N))
+                  expected="log(C(d,2) C(N-2,d-2)) in exact integer arithmetic, relative 1e-9",
+                  observed=dict(sizes_off=bad[:8], number_off=len(bad)), replay=rp)
         ctx.case(inp)
+
+        # ---- the closed forms that rest on kappa, same N, against exact counting
+        darr = np.array(sizes)
+        try:
+            cs = [float(x) for x in np.atleast_1d(m.C(darr, return_summands=True))]
+            exp_c = [float(Fraction(comb(N - 2, d - 2), kap[d])) for d in sizes]
+            ctx.check(len(cs) == len(exp_c) and all(close(a, b) for a, b in zip(cs, exp_c)), "HyMMSBM.C",
+                      "summands: per size, (#hyperedges of that size containing a fixed pair)/kappa", dict(inp, return_summands=True),
+                      observed=[(d, a, b) for d, a, b in zip(sizes, cs, exp_c) if not close(a, b)][:4], replay=rp)
+        except Exception as e:      # noqa: BLE001
+            ctx.check(False, "HyMMSBM.C", RAISES, dict(inp, error=_exc(e)), key=_raise_key("HyMMSBM.C", e), replay=rp)
+        try:
+            obs = m.dimension_sequence(include_dyadic=True, expected=True)
+            got = {int(k): float(v) for k, v in obs.items()}
+            off = []
+            for d in sizes:
+                want = float(Fraction(comb(N, d) * comb(d, 2), kap[d]) * g)
+                if not (d in got and close(got[d], want)):
+                    off.append((d, got.get(d), want))
+            ctx.check(not off and set(got) <= set(range(2, N + 1)), "HyMMSBM.dimension_sequence",
+                      "expected: per size, sum over the hyperedges of that size of lambda/kappa", dict(inp, include_dyadic=True, expected=True),
+                      observed=off[:4], replay=rp)
+        except Exception as e:      # noqa: BLE001
+            ctx.check(False, "HyMMSBM.dimension_sequence", RAISES, dict(inp, error=_exc(e)),
+                      key=_raise_key("HyMMSBM.dimension_sequence", e), replay=rp)
+        whole = ("all", "all", sizes) if len(sizes) == N - 1 else ("grid of %d sizes" % len(sizes), darr, sizes)
+        for dd, arg, ds in (whole, (pick, np.array(pick), pick), (N // 2, N // 2, [N // 2])):
+            want = float(sum(Fraction(comb(N - 1, d - 1) * comb(d, 2), kap[d]) for d in ds) * g)
+            try:
+                per = np.asarray(m.expected_degree(per_node=True, d=arg), dtype=float)
+                ctx.check(per.shape == (N,) and all(close(float(x), want) for x in (per[0], per[N // 2], per[-1], per.min(), per.max())),
+                          "HyMMSBM.expected_degree", "per node: sum over the hyperedges containing the node of lambda/kappa",
+                          dict(inp, d=dd, per_node=True), expected=want, observed=[float(per.min()), float(per.max())] if per.size else None,
+                          replay=rp)
+                avg = float(m.expected_degree(per_node=False, d=arg))
+                ctx.check(close(avg, want), "HyMMSBM.expected_degree", "average: mean over the nodes of the per-node expected degree",
+                          dict(inp, d=dd, per_node=False), expected=want, observed=avg, replay=rp)
+            except Exception as e:      # noqa: BLE001
+                ctx.check(False, "HyMMSBM.expected_degree", RAISES, dict(inp, d=dd, error=_exc(e)),
+                          key=_raise_key("HyMMSBM.expected_degree", e), replay=rp)
 
 
 # --------------------------------------------------------------------------------------------------------------
@@ -658,6 +753,30 @@ GRAPHS = [
          isolated=[]),
     dict(name="g5-graph", edges=[(0, 1), (1, 2), (2, 3), (3, 4), (0, 4), (0, 2)], weights=None, isolated=[]),
 ]
+
+
+# weighted hypergraphs whose weights are NOT integers (the model's A_e are then real-valued "counts"; the EM bound holds for any
+# non-negative A_e), including weights below 1
+FLOAT_GRAPHS = [
+    dict(name="g6-float-weights", edges=[(0, 1, 2), (1, 2), (2, 3, 4, 5), (0, 5), (3, 4, 5), (1, 4), (0, 1, 2, 3, 4)],
+         weights=[1.5, 2.0, 0.5, 3.0, 1.0, 0.7, 2.2], isolated=[]),
+    dict(name="g6-float-strings-isolated", edges=[("p", "q"), ("q", "r", "s"), ("p", "s", "t"), ("r", "t"), ("p", "q", "r", "t")],
+         weights=[0.5, 2.2, 0.25, 1.75, 3.3], isolated=["z"]),
+    dict(name="g5-float-below-one", edges=[(0, 1), (1, 2, 3), (0, 3, 4), (2, 4), (0, 1, 2, 3, 4), (1, 4)],
+         weights=[0.9, 0.35, 0.6, 0.125, 0.8, 0.45], isolated=[]),
+]
+
+
+def _prior_value(np, spec, shape, pseed, tag):
+    """A prior rate as the constructor takes it: a float, or - spec "array" - a strictly positive ndarray of rates of the given
+    shape (symmetric when square: the constructor asks for a symmetric matrix with the shape of w)."""
+    if spec != "array":
+        return spec
+    rng = np.random.default_rng([pseed, tag, shape[0], shape[1]])
+    r = 0.25 + 2.5 * rng.random(shape)
+    if shape[0] == shape[1]:
+        r = np.triu(r) + np.triu(r, 1).T
+    return r
 
 
 def _build_graph(Hypergraph, g):
@@ -683,7 +802,8 @@ def _graph_data(np, H):
 
 
 def _objective(np, u, w, data, N, D, rate):
-    """Exact Poisson log-likelihood over all subsets of size 2..D (+ log exponential prior on C*w when rate > 0)."""
+    """Exact Poisson log-likelihood over all subsets of size 2..D (+ log exponential prior on C*w when rate > 0; rate may be a
+    (K, K) array of rates, one per entry of w)."""
     G = np.asarray(u, dtype=float) @ np.asarray(w, dtype=float) @ np.asarray(u, dtype=float).T
     ll = 0.0
     cdef = 0.0
@@ -704,7 +824,9 @@ def _objective(np, u, w, data, N, D, rate):
     for e in data:
         if len(e) > D:
             return -math.inf
-    if rate:
+    if isinstance(rate, np.ndarray):
+        ll -= cdef * float(np.sum(rate * np.asarray(w, dtype=float)))
+    elif rate:
         ll -= rate * cdef * float(np.sum(w))
     return ll
 
@@ -737,11 +859,14 @@ def _param_clauses(ctx, np, m, inp, rp, assortative):
 def _run_fit(ctx, cfg):
     np, sp, sparse, Hypergraph, HyMMSBM, lin, to_coo = _imports()
     fn = "HyMMSBM.fit"
-    g = next(x for x in GRAPHS if x["name"] == cfg["graph"])
+    g = next(x for x in GRAPHS + FLOAT_GRAPHS if x["name"] == cfg["graph"])
     H = _build_graph(Hypergraph, g)
     N, data, Dd = _graph_data(np, H)
     K, ass, seed, mode = cfg["K"], cfg["assortative"], cfg["seed"], cfg["mode"]
-    up, wp = cfg["u_prior"], cfg["w_prior"]
+    # prior rates: floats, or "array" = an ndarray of rates with the shape of the parameter (w_prior symmetric)
+    up = _prior_value(np, cfg["u_prior"], (N, K), cfg["pseed"], 154)
+    wp = _prior_value(np, cfg["w_prior"], (K, K), cfg["pseed"], 155)
+    no_w_prior = isinstance(wp, float) and wp == 0.0
     mhs = {"none": None, "data": Dd, "N": N}[cfg["max_hye_size"]]
     D = Dd if mhs is None else mhs
     rp = dict(part="fit", **cfg)
@@ -755,7 +880,7 @@ def _run_fit(ctx, cfg):
             wmin = np.eye(K) if ass else np.ones((K, K))
             Gm = u0 @ wmin @ u0.T
             bad = any(sum(Gm[i, j] for i, j in itertools.combinations(sorted(e), 2)) <= 0 for e in data)
-            if not bad and wp == 0.0:
+            if not bad and no_w_prior:
                 # without a prior the M-step for w_kq is 0/0 when no two distinct nodes populate communities k and q
                 for k in range(K):
                     for q in range(K):
@@ -777,11 +902,12 @@ def _run_fit(ctx, cfg):
     def build():
         uu = None if u0 is None else u0.copy()
         ww = None if w0 is None else w0.copy()
-        m = HyMMSBM(K=K, u=uu, w=ww, assortative=ass, max_hye_size=mhs, u_prior=up, w_prior=wp, seed=seed)
-        return m, uu, ww
+        priors = [x.copy() if isinstance(x, np.ndarray) else x for x in (up, wp)]
+        m = HyMMSBM(K=K, u=uu, w=ww, assortative=ass, max_hye_size=mhs, u_prior=priors[0], w_prior=priors[1], seed=seed)
+        return m, uu, ww, priors
 
     def fit(n):
-        m, uu, ww = build()
+        m, uu, ww, priors = build()
         try:
             m.fit(H, n_iter=n)
         except Exception as e:
@@ -798,9 +924,14 @@ def _run_fit(ctx, cfg):
             if not (m.w is not None and np.array_equal(np.asarray(m.w), w0) and np.array_equal(ww, w0)):
                 same = False
                 what.append("w")
-        for name, val in (("K", K), ("assortative", ass), ("u_prior", up), ("w_prior", wp)):
+        for name, val, mine in (("K", K, None), ("assortative", ass, None), ("u_prior", up, priors[0]), ("w_prior", wp, priors[1])):
             got = getattr(m, name, None)
-            if not (type(got) in (type(val), np.bool_) and got == val):
+            if isinstance(val, np.ndarray):
+                # an array of rates: the model still holds these values and the caller's array is untouched
+                if not (isinstance(got, np.ndarray) and np.array_equal(got, val) and np.array_equal(mine, val)):
+                    same = False
+                    what.append(name)
+            elif not (type(got) in (type(val), np.bool_) and got == val):
                 same = False
                 what.append(name)
         if mhs is not None and not (m.max_hye_size == mhs):
@@ -845,7 +976,7 @@ def _run_fit(ctx, cfg):
         ws.append(np.array(m.w, dtype=float))
         objs.append(_objective(np, u0, ws[-1], data, N, D, wp))
     ctx.case(dict(cfg))
-    check_ascent = wp == 0.0 or mhs is not None
+    check_ascent = no_w_prior or mhs is not None
     if check_ascent and all(np.all(np.isfinite(x)) for x in ws):
         scale = max([1.0] + [abs(x) for x in objs if math.isfinite(x)])
         good = all(math.isfinite(x) for x in objs) and all(b >= a - TOL * scale for a, b in zip(objs, objs[1:]))
@@ -853,7 +984,9 @@ def _run_fit(ctx, cfg):
                   "with u supplied the exact Poisson likelihood (posterior when a prior rate is set) never decreases with n_iter",
                   dict(inp, D=D), observed=objs, replay=rp)
     # ---- the prefix reading (not a clause of the statement: counted, reported as an assumption if it breaks)
-    m2, _, _ = build()
+    if g in FLOAT_GRAPHS or isinstance(wp, np.ndarray):
+        return      # counted on the integer-weight / scalar-rate configurations only (budget)
+    m2 = build()[0]
     try:
         m2.fit(H, n_iter=8)
         ctx.count("fit: same seed and n_iter give bit-identical w", int(np.array_equal(np.asarray(m2.w), ws[-1])))
@@ -861,7 +994,7 @@ def _run_fit(ctx, cfg):
     except Exception:
         pass
     if hasattr(HyMMSBM, "_w_update"):
-        m3, _, _ = build()
+        m3 = build()[0]
         rec = []
         orig = m3._w_update
 
@@ -1301,6 +1434,24 @@ def _fit_plan(quick, seed):
                             plan.append(dict(graph=g["name"], mode=mode, K=K, assortative=ass, seed=seed * 1000 + s,
                                              pseed=seed * 1000 + s, u_prior=up, w_prior=wp,
                                              max_hye_size="none" if s % 2 else "data"))
+                    # prior rates given as ARRAYS (w_prior: symmetric (K, K); u_prior: (N, K))
+                    base = dict(graph=g["name"], K=K, assortative=ass, seed=seed * 1000 + s, pseed=seed * 1000 + s)
+                    plan.append(dict(base, mode="u", u_prior=0.0, w_prior="array", max_hye_size="data"))
+                    plan.append(dict(base, mode="none", u_prior="array" if s % 2 else 0.0, w_prior="array",
+                                     max_hye_size="none" if s % 2 else "data"))
+                    plan.append(dict(base, mode="w", u_prior="array", w_prior=1.0, max_hye_size="data"))
+    # hypergraphs with non-integer weights
+    for g in FLOAT_GRAPHS:
+        for s in (seeds[:2] if quick else seeds):
+            for K in (2, 3):
+                for ass in (True, False):
+                    base = dict(graph=g["name"], K=K, assortative=ass, seed=seed * 1000 + s, pseed=seed * 1000 + s)
+                    for wp, mhs in ((0.0, "data"), (0.0, "N"), (1.0, "data"), ("array", "N")):
+                        plan.append(dict(base, mode="u", u_prior=0.0, w_prior=wp, max_hye_size=mhs))
+                    plan.append(dict(base, mode="u", u_prior=0.0, w_prior=0.0, max_hye_size="data", sparse_u=True))
+                    plan.append(dict(base, mode="none", u_prior=0.0, w_prior=0.0, max_hye_size="data"))
+                    plan.append(dict(base, mode="none", u_prior=0.5, w_prior="array", max_hye_size="none"))
+                    plan.append(dict(base, mode="w", u_prior="array" if s % 2 else 0.0, w_prior=1.0, max_hye_size="data"))
     return plan
 
 
@@ -1318,8 +1469,10 @@ def run(ctx):
 def _run(ctx):
     ctx = _Dedup(ctx)
     ctx.rule("(S) every shape N<=%d, K, w full/diagonal, D<=N: real closed forms on symbolic object arrays vs. brute force over "
-             "all subsets; (N) seeded random numeric parameters with zeros, dense/csr/coo incidence; (B) 7 hypergraphs x seeds x "
-             "K x assortative x prior rate x max_hye_size, fit with n_iter=1..8; (R) seeded sequences of poisson_params / expected "
+             "all subsets; (N) seeded random numeric parameters with zeros, dense/csr/coo incidence; (K) N up to 5000, K=1, equal rows "
+             "of u: log_kappa / C / expected statistics vs. exact big-integer counting; (B) 7 hypergraphs (+3 with non-integer "
+             "weights) x seeds x K x assortative x prior rate (float, or symmetric (K,K) / (N,K) arrays of rates) x max_hye_size, "
+             "fit with n_iter=1..8; (R) seeded sequences of poisson_params / expected "
              "statistics / fit on ONE model object for hypergraphs A, B with equal numbers of nodes and hyperedges (and C), "
              "each answer against the definition for the hypergraph passed. A case is non-trivial if the model could be "
              "built / fit returned finite parameters (a skipped or raising case is trivial)." % (4 if ctx.quick else 6))
@@ -1327,7 +1480,9 @@ def _run(ctx):
     ctx.assume("coefficient / relative tolerance 1e-9 for 'equal', -1e-12 for non-negativity")
     ctx.assume("'x > 0' on a symbolic expected count is decided for generic strictly positive parameters")
     ctx.assume("kappa(d) = C(d,2) * C(N-2,d-2) is the library's only normalisation (kappa_fn='binom+avg')")
-    ctx.assume("with a prior rate r > 0 'likelihood' is read as the MAP objective LL - r*sum(C*w) that EM ascends")
+    ctx.assume("with a prior rate r > 0 'likelihood' is read as the MAP objective LL - r*sum(C*w) that EM ascends "
+               "(array of rates: LL - sum(r*C*w) entrywise)")
+    ctx.assume("math.comb / math.log on Python ints and fractions.Fraction are exact / correctly rounded (oracle for large N)")
     ctx.assume("rows of u correspond to nodes through Hypergraph.get_mapping()")
 
     for desc in _symbolic_plan(ctx.quick):
